@@ -1,0 +1,18 @@
+//go:build verif
+
+package metaclient
+
+// Facade used by the verification harness (/verif), property C05: which shard (i.e. which
+// partition of a replica group) a client routes reads and writes to, computed by the real
+// Client.getAliveShardsForRepDB over a meta image the harness holds.
+// Nothing here is compiled without the `verif` build tag.
+
+import (
+	meta2 "github.com/openGemini/openGemini/lib/util/lifted/influx/meta"
+)
+
+// VerifAliveShardsForRepDB is getAliveShardsForRepDB of a client whose cache is `data`.
+func VerifAliveShardsForRepDB(data *meta2.Data, database string, sgi *meta2.ShardGroupInfo, replicaN int) []int {
+	c := &Client{cacheData: data}
+	return c.getAliveShardsForRepDB(database, sgi, replicaN)
+}
